@@ -272,8 +272,9 @@ func (g *gen) flow(i int) *hflow {
 // ---------- memory layout of the range slices ----------
 
 // How the Ranges slice of every reference lies in memory.  The validators sort
-// range arrays in place and append to them, and the arrays they get belong to the
-// log; whether that shows depends on spare capacity and on shared arrays:
+// range arrays in place (and used to append to them), and the arrays they get
+// belong to the log; whether that shows depends on spare capacity and on shared
+// arrays:
 //
 //	exact       every slice has its own array, cap == len (what a literal gives)
 //	grown       own arrays with the capacity append() growth leaves: 1,2,4,8,...
@@ -281,7 +282,8 @@ func (g *gen) flow(i int) *hflow {
 //	            are windows of one shared array (all[i:j], cap reaching over the
 //	            following windows, or all[i:j:j])
 //	small-spare also slices of fewer than two ranges have spare capacity / are such
-//	            windows: the precondition of finding C10-shared-backing-append
+//	            windows: the precondition of the repaired finding
+//	            C10-shared-backing-append (the code appended into them)
 func (g *gen) layouts(f *hflow) {
 	if f.layKind != "" {
 		return // the generator chose the layout itself
@@ -907,7 +909,7 @@ func (g *gen) fixed() []*hflow {
 	return out
 }
 
-// ---------- probes of the known findings (fixed witnesses on the real code) ----------
+// ---------- probes: fixed witnesses on the real code (the listed finding D6; regression probes of the repaired ones) ----------
 
 type probeActor struct{ src types.DataSource }
 
@@ -948,7 +950,7 @@ func probes(c *gal.Ctx) {
 		})
 		c.Probe(findD6, len(vap) == 0, "actor code = bytes 0..16 of RawBytes artifact #1, only bytes 0..16 of RawBytes artifact #2 were measured: no issue reported")
 	}
-	// empty code range: an actor without a single code byte is reported as unprotected
+	// (repaired) empty code range: an actor without a single code byte was reported as unprotected
 	{
 		img := biosimage.New(plain)
 		a := &probeActor{static(ref(img, nil, R(5, 0)))}
@@ -957,9 +959,9 @@ func probes(c *gal.Ctx) {
 			types.StaticStep{&measureAct{datas: []types.References{{ref(img, nil, R(100, 10))}}}},
 			types.StaticStep{commonactions.SetActor(a)},
 		})
-		c.Probe(findEmpty, len(vap) == 1 && len(vap2) == 0, "actor code = the zero-length range 5:5: reported as unprotected when nothing was measured, not reported once anything of the image was measured")
+		c.Probe(findEmpty, len(vap) != 0 || len(vap2) != 0, fmt.Sprintf("actor code = the zero-length range 5:5 (no code byte): %d issue(s) when nothing was measured, %d once bytes 100..110 of the image were measured; expected none", len(vap), len(vap2)))
 	}
-	// final coverage compares unresolved references: offsets never cover files given as physical addresses
+	// (repaired) final coverage compared unresolved references: offsets never covered files given as physical addresses
 	{
 		var b []byte
 		b = append(b, miniFV(0x6000, 0x10)...)
@@ -967,9 +969,9 @@ func probes(c *gal.Ctx) {
 		whole := R(0, uint64(len(b)))
 		_, vfcOff := probeRun(img, types.Steps{types.StaticStep{&measureAct{datas: []types.References{{ref(img, nil, whole)}}}}})
 		_, vfcPhys := probeRun(img, types.Steps{types.StaticStep{&measureAct{datas: []types.References{{ref(img, biosimage.PhysMemMapper{}, R(fourGiB-uint64(len(b)), uint64(len(b))))}}}}})
-		c.Probe(findMixed, len(vfcOff) == 1 && len(vfcPhys) == 0, "the whole image measured by an image-offset reference: the executable file is still reported as not covered (measured by physical addresses: no issue)")
+		c.Probe(findMixed, len(vfcOff) != 0 || len(vfcPhys) != 0, fmt.Sprintf("image = one firmware volume with a PE32 file, the whole image measured by one reference: %d coverage issue(s) when it is given as image offsets, %d when given as physical addresses; expected none", len(vfcOff), len(vfcPhys)))
 	}
-	// shared backing array: SortAndMerge appends into the spare capacity of a log reference's ranges
+	// (repaired) shared backing array: SortAndMerge appended into the spare capacity of a log reference's ranges
 	{
 		img := biosimage.New(plain)
 		all := pkgbytes.Ranges{R(0, 4), R(0x200, 4), R(0x300, 4)}
@@ -980,7 +982,7 @@ func probes(c *gal.Ctx) {
 			types.StaticStep{&measureAct{datas: []types.References{{{Artifact: img, MappedRanges: types.MappedRanges{Ranges: all[1:3]}}}}}},
 			types.StaticStep{commonactions.SetActor(a)},
 		})
-		c.Probe(findBacking, len(vap) == 1 && (all[1] != R(0x200, 4) || all[2] != R(0x300, 4)),
-			"three measured ranges share one backing array (refs all[0:1] and all[1:3]): the validator overwrites all[1:3] in the log and reports the measured actor code 0x200:0x204,0x300:0x304 as unprotected")
+		c.Probe(findBacking, len(vap) != 0 || all[0] != R(0, 4) || all[1] != R(0x200, 4) || all[2] != R(0x300, 4),
+			fmt.Sprintf("three measured ranges share one backing array (steps 0 and 2 measure refs all[0:1] and all[1:3], step 1 measures 0x800:0x804,0x900:0x904, step 3 enters an actor with code 0x200:0x204,0x300:0x304): after validation all = %v (expected unchanged), %d issue(s) (expected none: the code was measured)", all, len(vap)))
 	}
 }
